@@ -3,6 +3,8 @@ nested serialisable fields and a registered third-party type."""
 from __future__ import annotations
 
 import decimal
+import fractions
+import uuid
 from dataclasses import dataclass, field
 from typing import Any, List, TypeVar
 
@@ -75,5 +77,113 @@ def _deser_decimal(data, **kwargs):
     return decimal.Decimal(data["digits"])
 
 
+class Money:
+    """a 'third-party' value type (no krrood base class); registered with the registry"""
+
+    def __init__(self, amount, currency="EUR"):
+        self.amount, self.currency = amount, currency
+
+    def _key(self):
+        return (self.amount, self.currency)
+
+    def __eq__(self, other):
+        return type(other) is type(self) and other._key() == self._key()
+
+    def __hash__(self):
+        return hash(self._key())
+
+    def __repr__(self):
+        return f"{type(self).__name__}{self._key()}"
+
+
+class TaxedMoney(Money):
+    """registered AFTER its base class, with functions of its own"""
+
+    def __init__(self, amount, currency="EUR", tax="0"):
+        super().__init__(amount, currency)
+        self.tax = tax
+
+    def _key(self):
+        return (self.amount, self.currency, self.tax)
+
+
+class Tip(TaxedMoney):
+    """registered BEFORE nothing else of its chain is looked at again: third level"""
+
+    def __init__(self, amount, currency="EUR", tax="0", note=""):
+        super().__init__(amount, currency, tax)
+        self.note = note
+
+    def _key(self):
+        return (self.amount, self.currency, self.tax, self.note)
+
+
+class EntityId(uuid.UUID):
+    """a subclass of a type krrood registers itself (uuid.UUID), registered on its own"""
+
+
+class Early(Money):
+    """a subclass registered BEFORE its base class Late? no: Early derives Money and is registered before Money"""
+
+
+def _tag(cls):
+    return cls.__module__ + "." + cls.__name__
+
+
+def _ser_money(obj):
+    return {JSON_TYPE_NAME: _tag(Money), "amount": obj.amount, "currency": obj.currency}
+
+
+def _deser_money(data, **kwargs):
+    return Money(data["amount"], data["currency"])
+
+
+def _ser_taxed(obj):
+    return {JSON_TYPE_NAME: _tag(TaxedMoney), "amount": obj.amount, "currency": obj.currency, "tax": obj.tax}
+
+
+def _deser_taxed(data, **kwargs):
+    return TaxedMoney(data["amount"], data["currency"], data["tax"])
+
+
+def _ser_tip(obj):
+    return {JSON_TYPE_NAME: _tag(Tip), "amount": obj.amount, "currency": obj.currency, "tax": obj.tax, "note": obj.note}
+
+
+def _deser_tip(data, **kwargs):
+    return Tip(data["amount"], data["currency"], data["tax"], data["note"])
+
+
+def _ser_early(obj):
+    return {JSON_TYPE_NAME: _tag(Early), "amount": obj.amount, "currency": obj.currency}
+
+
+def _deser_early(data, **kwargs):
+    return Early(data["amount"], data["currency"])
+
+
+def _ser_entity_id(obj):
+    return {JSON_TYPE_NAME: _tag(EntityId), "hex": obj.hex}
+
+
+def _deser_entity_id(data, **kwargs):
+    return EntityId(data["hex"])
+
+
+def _ser_fraction(obj):
+    return {JSON_TYPE_NAME: "fractions.Fraction", "n": str(obj.numerator), "d": str(obj.denominator)}
+
+
+def _deser_fraction(data, **kwargs):
+    return fractions.Fraction(int(data["n"]), int(data["d"]))
+
+
 def register():
-    JSONSerializableTypeRegistry().register(decimal.Decimal, _ser_decimal, _deser_decimal)
+    reg = JSONSerializableTypeRegistry()
+    reg.register(decimal.Decimal, _ser_decimal, _deser_decimal)
+    reg.register(Early, _ser_early, _deser_early)              # sub-class first ...
+    reg.register(Money, _ser_money, _deser_money)              # ... then its base, then the chain downwards
+    reg.register(TaxedMoney, _ser_taxed, _deser_taxed)
+    reg.register(Tip, _ser_tip, _deser_tip)
+    reg.register(EntityId, _ser_entity_id, _deser_entity_id)   # uuid.UUID itself is registered by krrood at import
+    reg.register(fractions.Fraction, _ser_fraction, _deser_fraction)
